@@ -90,6 +90,19 @@ fn attach_alias_locations_if_missing(
     }
 }
 
+/// The error for a merge value that is neither a mapping nor a sequence of mappings. A value
+/// that was reached through an alias names both sites, like every other error caused by an
+/// aliased value.
+fn merge_value_error(defined_location: Location, reference_location: Location) -> Error {
+    attach_alias_locations_if_missing(
+        Error::MergeValueNotMapOrSeqOfMaps {
+            location: defined_location,
+        },
+        reference_location,
+        defined_location,
+    )
+}
+
 mod spanned_deser;
 
 // Re-export moved Options and related enums from the options module to preserve
@@ -633,9 +646,7 @@ fn pending_entries_from_events<'a>(
         Some(Ev::Scalar {
             value, style, tag, ..
         }) if merge_value_is_null(value.as_ref(), style, tag) => Ok(Vec::new()),
-        Some(Ev::Scalar { location, .. }) => Err(Error::MergeValueNotMapOrSeqOfMaps {
-            location: *location,
-        }),
+        Some(Ev::Scalar { location, .. }) => Err(merge_value_error(*location, reference_location)),
         Some(Ev::MapStart { .. }) => {
             collect_entries_from_map(&mut replay, reference_location, dup_policy)
         }
@@ -674,9 +685,7 @@ fn pending_entries_from_events<'a>(
             }
             Ok(merged)
         }
-        Some(other) => Err(Error::MergeValueNotMapOrSeqOfMaps {
-            location: other.location(),
-        }),
+        Some(other) => Err(merge_value_error(other.location(), reference_location)),
         None => Err(Error::eof().with_location(location)),
     }
 }
@@ -705,9 +714,9 @@ fn pending_entries_from_live_events<'a>(
             let _ = ev.next()?;
             Ok(Vec::new())
         }
-        Some(Ev::Scalar { location, .. }) => Err(Error::MergeValueNotMapOrSeqOfMaps {
-            location: *location,
-        }),
+        Some(Ev::Scalar { location, .. }) => {
+            Err(merge_value_error(*location, merge_reference_location))
+        }
         Some(Ev::MapStart { .. }) => {
             let mut node = capture_node(ev)?;
             pending_entries_from_events(
@@ -746,9 +755,10 @@ fn pending_entries_from_live_events<'a>(
             }
             Ok(merged)
         }
-        Some(other) => Err(Error::MergeValueNotMapOrSeqOfMaps {
-            location: other.location(),
-        }),
+        Some(other) => Err(merge_value_error(
+            other.location(),
+            merge_reference_location,
+        )),
         None => Err(Error::eof().with_location(ev.last_location())),
     }
 }
